@@ -533,8 +533,10 @@ impl<'a, R: RealNumberInternalTrait> Interpreter<'a, R> {
                     .imported_library
                     .insert(lib_name.clone().extract_data())
                 {
-                    let library = self.get_library(lib_name.clone())?;
+                    let library = self.get_library(lib_name.clone());
+                    // the in-progress mark is removed on every exit: a library that failed to load is not "being imported"
                     self.imported_library.remove(lib_name);
+                    let library = library?;
                     Ok(library
                         .iter_definitions()
                         .map(|(name, value)| (name.clone(), value.clone()))
